@@ -538,6 +538,29 @@ func ruleG2(c *Ctx) *RuleResult {
 func ruleG3(c *Ctx) *RuleResult {
 	r := &RuleResult{Floor: 6, FloorWhat: "counter obligations"}
 	segF := c.Field("", "muxerStream", "segments")
+	// the audio-only MPEG-TS rule counts writes: one increment per accepted write
+	if f := c.Field("", "muxerSegmentMPEGTS", "audioAUCount"); f != nil {
+		n := 0
+		for _, fn := range c.Funcs {
+			for _, st := range storesToField(c, fn, f) {
+				if freshObject(st.Addr) {
+					continue
+				}
+				n++
+				key := fmt.Sprintf("%s|audioAUCount#%d", FuncName(fn), n)
+				add, ok := st.Val.(*ssa.BinOp)
+				one := int64(0)
+				if ok {
+					one, _ = constInt(add.Y)
+				}
+				if ok && add.Op == token.ADD && one == 1 {
+					r.ok(key, c.Pos(st.Pos()), FuncName(fn), "audioAUCount counts writes: it only ever becomes old + 1", "+1")
+				} else {
+					r.fail(key, c.Pos(st.Pos()), FuncName(fn), "audioAUCount counts writes: it only ever becomes old + 1", "stored value is "+st.Val.String()+": an audio-only MPEG-TS segment is cut before 100 writes")
+				}
+			}
+		}
+	}
 	for _, name := range []string{"nextSegmentID", "nextPartID", "segmentDeleteCount"} {
 		f := c.Field("", "muxerStream", name)
 		if f == nil {
